@@ -14,7 +14,7 @@ use rosu_map::section::hit_objects::hit_samples::{HitSampleInfo, HitSampleInfoNa
 use rosu_map::section::hit_objects::{HitObject, HitObjectKind, PathControlPoint, SplineType};
 use rosu_map::Beatmap;
 
-pub const RULE: &str = "chronologically ordered .osu files (structured generator levels 0-1 and the object-centred generator in all four modes, versions 3..128, multi-segment slider paths of every type incl. trailing typed points, same-time timing groups, >20 equal start times; bundled maps and field-level mutations of them), decoded, encoded and decoded again with the real crate; every item the property lists is compared (general/editor/metadata/difficulty/events/colours fields, timing points, slider-velocity / kiai / scroll-speed timelines sampled at all control-point times +-1, hit objects incl. control points, velocities and computed curves, node counts, sample names and banks); correspondence: the `enc` model entry (decode+encode, rendered token stream) vs encode_to_string on the same files; non-trivial = at least one hit object and one timing point; distinct = distinct texts";
+pub const RULE: &str = "chronologically ordered .osu files (structured generator levels 0-1 and the object-centred generator in all four modes, versions 3..128, multi-segment slider paths of every type incl. trailing typed points, same-time timing groups, >20 equal start times; a stream of spinners / holds of the class D33: start far smaller than the end's ulp, ends just above a power of two, half-ulp ties and their near misses; bundled maps and field-level mutations of them), decoded, encoded and decoded again with the real crate; every item the property lists is compared (general/editor/metadata/difficulty/events/colours fields, timing points, slider-velocity / kiai / scroll-speed timelines sampled at all control-point times +-1, hit objects incl. control points, velocities and computed curves, node counts, sample names and banks); correspondence: the `enc` model entry (decode+encode, rendered token stream) vs encode_to_string on the same files; non-trivial = at least one hit object and one timing point; distinct = distinct texts";
 
 fn fb(x: f64) -> String {
     if x.is_nan() {
@@ -344,6 +344,77 @@ fn d31_object(h: &HitObject) -> bool {
 }
 
 /// input order: timing-point and hit-object lines in chronological order (text scan)
+/// D33: a spinner / hold whose duration d does not survive being written as the end time
+/// fl(start + d) and read back as fl(end - start) (clipped like the decoder clips it)
+pub fn d33_object(h: &HitObject) -> bool {
+    let s = h.start_time;
+    match &h.kind {
+        HitObjectKind::Spinner(sp) => {
+            let d = sp.duration;
+            let back = ((s + d) - s).max(0.0);
+            back.to_bits() != d.to_bits() && back.is_finite() && d.is_finite()
+        }
+        HitObjectKind::Hold(hd) => {
+            let d = hd.duration;
+            let back = s.max(s + d) - s;
+            back.to_bits() != d.to_bits() && back.is_finite() && d.is_finite()
+        }
+        _ => false,
+    }
+}
+
+/// the recorded inputs of D33 and a generated stream of the class: start far smaller than the
+/// end's ulp, ends just above a power of two, end - start a half-ulp tie (and near misses of
+/// each, which must survive)
+pub const D33_INPUTS: [(&str, &str); 2] = [
+    ("recorded-D33-spinner", "osu file format v14\n\n[TimingPoints]\n0,500,4,1,0,100,1,0\n\n[HitObjects]\n256,192,0.00000000000011368683772161603,12,0,1024.0000000000002\n"),
+    (
+        "recorded-D33-hold",
+        "osu file format v14\n\n[General]\nMode: 3\n\n[TimingPoints]\n0,500,4,1,0,100,1,0\n\n[HitObjects]\n100,192,0.00000000000011368683772161603,128,0,1024.0000000000002:0:0:0:0:\n",
+    ),
+];
+
+pub fn d33_texts(tier: &str, seed: u64, mut f: impl FnMut(&str, &str)) {
+    for (o, t) in D33_INPUTS {
+        f(t, o);
+    }
+    let mut r = Rng::new(seed ^ 0xD33);
+    let n = if tier == "thorough" { 4000 } else { 300 };
+    for i in 0..n {
+        // end: (2^p) * (1 + k * 2^-52), k small (odd k: the tie rounds away from the end)
+        let p = r.range(0, 30) as i32;
+        let k = *r.pick(&[1u64, 1, 1, 2, 3, 5, 7, 0]);
+        let e = f64::from_bits((2f64.powi(p)).to_bits() + k);
+        let ulp = 2f64.powi(p - 52);
+        // start: half an ulp of the end (the tie), a quarter, three halves, one ulp (exact), or far below;
+        // now and then negative or a small whole number plus such a fraction
+        let frac = *r.pick(&[0.5, 0.5, 0.5, 0.25, 1.5, 1.0, 0.75, 2.0f64.powi(-20)]);
+        let mut s = ulp * frac;
+        if r.chance(1, 8) {
+            s = -s;
+        }
+        if r.chance(1, 8) {
+            s += r.range(1, 3) as f64;
+        }
+        if !(s < e) {
+            continue;
+        }
+        let mania = r.chance(1, 2);
+        let line = if mania {
+            format!("{},192,{},128,0,{}:0:0:0:0:", r.range(0, 511), s, e)
+        } else {
+            format!("256,192,{},12,0,{}", s, e)
+        };
+        let text = format!(
+            "osu file format v14\n\n[General]\nMode: {}\n\n[TimingPoints]\n{},500,4,1,0,100,1,0\n\n[HitObjects]\n{}\n",
+            if mania { 3 } else { 0 },
+            if s < 0.0 { -10 } else { 0 },
+            line
+        );
+        f(&text, &format!("d33-stream #{}", i));
+    }
+}
+
 pub fn chronological(text: &str) -> bool {
     let mut sec = "";
     let mut last_tp = f64::NEG_INFINITY;
@@ -495,6 +566,8 @@ pub fn oracle(text: &str, origin: &str, out: &mut Out) {
                     "D30"
                 } else if *n == "node_samples" && d31_object(a) {
                     "D31"
+                } else if *n == "duration" && d33_object(a) {
+                    "D33"
                 } else if d19 && matches!(*n, "curve_path" | "curve_lengths" | "velocity") {
                     "D22"
                 } else if d34 && *n == "velocity" && a.start_time == 0.0 && a.start_time.is_sign_negative() {
@@ -603,6 +676,12 @@ pub fn generate(tier: &str, seed: u64, out: &mut Out) {
         oracle(&t, "signed-zero times", out);
         out.count("stream.signed_zero");
     }
+    // D33 class: correspondence and oracle
+    d33_texts(tier, seed, |t, o| {
+        out.count("d33_stream");
+        c04::enc_case(t, o, out);
+        oracle(t, o, out);
+    });
     // correspondence: the same files through the `enc` model entry
     c04::texts(tier, seed ^ 0xC02, false, true, |t, o| {
         if chronological(t) {
